@@ -12,6 +12,8 @@
 (***************************************************************************)
 EXTENDS Ops, MzdWords
 
+CONSTANT KINDS   \* the kinds of primitives checked by this configuration (a subset of Kinds)
+CONSTANT FULL    \* TRUE: all 4096 contents of the source region x 3 destination fills; FALSE: complete single-bit basis
 VARIABLE cs
 vars == <<cs>>
 
@@ -128,11 +130,20 @@ Check(kind, S, m0) ==
     [] kind = "add" -> CheckAdd(S, m0)
     [] kind = "observers" -> CheckObservers(S, m0)
 
-\* two-level fan-out: phase 1 picks the kind and the source window, phase 2 the contents and the destination fill
+\* Basis contents.  Every primitive except the observers only moves, masks (with masks that do not depend on the
+\* contents) and XORs bits, so each output bit is an affine GF(2)-linear function of the memory; the GF(2)-level
+\* semantics and the frame condition are linear too.  Agreement on the zero memory and on every memory with a
+\* single bit set therefore implies agreement on all memories.  (The observers are checked on all contents, and
+\* the FULL configuration re-checks everything on all 4096 x 3 memories without this argument.)
+BasisMems == {[x \in Addrs |-> {}], [x \in Addrs |-> Bits]}
+             \cup {[x \in Addrs |-> IF x = y THEN {b} ELSE {}] : y \in Addrs, b \in Bits}
+\* two-level fan-out: phase 1 picks the kind and the source window, phase 2 the contents
 Init == cs = [ph |-> 0]
 Next ==
-  \/ cs.ph = 0 /\ \E k \in Kinds, S \in {x \in SrcWins : ValidSrc(x)} : cs' = [ph |-> 1, k |-> k, S |-> S]
-  \/ cs.ph = 1 /\ \E a \in 0 .. 2 ^ (6 * W) - 1, f \in 0 .. 2 : cs' = [ph |-> 2, k |-> cs.k, S |-> cs.S, a |-> a, f |-> f]
+  \/ cs.ph = 0 /\ \E k \in KINDS, S \in {x \in SrcWins : ValidSrc(x)} : cs' = [ph |-> 1, k |-> k, S |-> S]
+  \/ cs.ph = 1 /\ (FULL \/ cs.k = "observers") /\ \E a \in 0 .. 2 ^ (6 * W) - 1, f \in (IF cs.k = "observers" THEN {0} ELSE 0 .. 2) :
+        cs' = [ph |-> 2, k |-> cs.k, S |-> cs.S, mem |-> MemOf(a, f)]
+  \/ cs.ph = 1 /\ ~FULL /\ cs.k # "observers" /\ \E m \in BasisMems : cs' = [ph |-> 2, k |-> cs.k, S |-> cs.S, mem |-> m]
 Spec == Init /\ [][Next]_vars
-WordsOK == cs.ph = 2 => Check(cs.k, cs.S, MemOf(cs.a, cs.f))
+WordsOK == cs.ph = 2 => Check(cs.k, cs.S, cs.mem)
 =============================================================================
